@@ -1175,6 +1175,11 @@ def _pg_ph_designs(rng):
     Fq = fgeo.inner(rng)
     if Fq != Fp:
         out.append((_triangle_outside([Fp, Fq], n, rng), K, 'pg_ph_edge_on_face'))
+    # an edge in the plane of a face, beyond the face, whose carrier line grazes exactly one corner of the face (disjoint)
+    fv = list(geo.faces[fi])
+    ci = rng.randrange(len(fv))
+    dgr = sub(fv[(ci + 1) % len(fv)], fv[ci - 1])
+    out.append((_triangle_outside([add(fv[ci], scale(2, dgr)), add(fv[ci], scale(4, dgr))], n, rng), K, 'pg_ph_edge_in_face_plane_line_grazes_corner'))
     # polygon with a vertex at an inner point, through a vertex
     far = add(P, scale(3, sub(geo.inner(rng, list(e)), v)))
     if O.affine_rank([v, P, far]) == 2:
@@ -1217,6 +1222,10 @@ def _ph_ph_designs(rng):
         Fr = fgeo.inner(rng)
         if O.affine_rank([Fp, Fq, Fr]) == 2:
             out.append((A, _solid_outside([Fp, Fq, Fr], n, rng), 'ph_ph_face_in_face'))
+    fv = list(face)
+    ci = rng.randrange(len(fv))
+    dgr = sub(fv[(ci + 1) % len(fv)], fv[ci - 1])
+    out.append((A, _solid_outside([add(fv[ci], scale(2, dgr)), add(fv[ci], scale(4, dgr))], n, rng), 'ph_ph_edge_in_face_plane_line_grazes_corner'))
     out.append((A, _solid_outside([v], geo.support_normal_at_vertex(v), rng), 'ph_ph_touch_vertex_generic'))
     out.append((A, _solid_outside([e[0], e[1]], geo.support_normal_at_edge(e), rng), 'ph_ph_touch_edge_generic'))
     E = geo.inner(rng, list(e))
